@@ -55,6 +55,8 @@ class Translator:
         self.drop = set(drop)
         self.noop = [re.compile(x) for x in noop]
         self.nooped = []
+        self.cut = []
+        self.cutted = []
         self.watch = watch
         self.tcache = {}
         self.structs = []      # (ty, cname) in registration order
@@ -1186,6 +1188,8 @@ class Translator:
             try:
                 if any(r.search(L.name_of(fn)) for r in self.noop):
                     raise Unsupported("NOOP")
+                if any(r.search(L.name_of(fn)) for r in self.cut):
+                    raise Unsupported("CUT")
                 head, decls, body = self.function(fn)
             except Unsupported as e:
                 msg = "ir2c-unsupported in %s: %s" % (L.name_of(fn), str(e))
@@ -1202,6 +1206,11 @@ class Translator:
                     self.unsupported.pop()
                     self.nooped.append(L.name_of(fn))
                     body = [self.dummy_ret(fn)]
+                elif str(e) == "CUT":
+                    self.unsupported.pop()
+                    self.cutted.append(L.name_of(fn))
+                    body = ["__CPROVER_assert(0, \"allocation bound: cut function reached (unwinding assertion)\");",
+                            "__CPROVER_assume(0);", self.dummy_ret(fn)]
                 else:
                     body = ["__CPROVER_assert(0, %s);" % self.cstr(msg[:200]), "__CPROVER_assume(0);", self.dummy_ret(fn)]
             fbodies.append((fn, head, decls, body))
@@ -1278,10 +1287,12 @@ def main():
     ap.add_argument("--watch", action="store_true")
     ap.add_argument("--no-ctors", action="store_true")
     ap.add_argument("--noop", action="append", default=[], help="regex: matching defined functions get an empty body (listed in info)")
+    ap.add_argument("--cut", action="append", default=[], help="regex: matching functions become a bound assertion (paths through them are outside the bound; reaching one is reported like an unwinding assertion)")
     ap.add_argument("--info", help="write JSON with functions encoded / externs / unsupported")
     a = ap.parse_args()
     t = Translator(a.ir, a.entry, drop=a.drop, watch=a.watch, noop=a.noop)
     t.with_ctors = not a.no_ctors
+    t.cut = [re.compile(x) for x in a.cut]
     text = t.translate()
     with open(a.out, "w") as f:
         f.write(text)
@@ -1290,6 +1301,7 @@ def main():
         "externs": sorted(set(t.extern_used.values())),
         "unsupported": t.unsupported,
         "nooped": t.nooped,
+        "cut": t.cutted,
         "instructions": t.stats["instructions"],
     }
     if a.info:
